@@ -70,6 +70,7 @@ type axiomGroup struct {
 
 var axiomGroups = []axiomGroup{
 	{[]string{"(ringidx "}, `(assert (forall ((h Int) (l Int) (k Int)) (! (= (ringidx h l k) (ite (< (+ h k) l) (+ h k) (- (+ h k) l))) :pattern ((ringidx h l k)))))
+(assert (forall ((h Int) (l Int) (a Int) (b Int)) (! (=> (and (<= 0 h) (< h l) (<= 0 a) (<= 0 b) (<= (+ a b) l)) (= (ringidx (ringidx h l a) l b) (ringidx h l (+ a b)))) :pattern ((ringidx (ringidx h l a) l b)))))
 `},
 	{[]string{"slen", "str_empty", "(sat "}, `(assert (= (slen str_empty) 0))
 (assert (forall ((s Str)) (! (>= (slen s) 0) :pattern ((slen s)))))
@@ -323,16 +324,30 @@ func (d *Decls) zeroOfSort(s string, t types.Type) string {
 		if et == nil {
 			panic(unsupported("zero of seq without type " + s))
 		}
-		return fmt.Sprintf("(mk_%s ((as const %s) %s) 0)", s, arrSort(d.sortOf(et)), d.zeroOf(et))
+		return fmt.Sprintf("(mk_%s %s 0)", s, d.constArray(d.sortOf(et), d.zeroOf(et)))
 	}
 	if strings.HasPrefix(s, "(Array Int ") {
 		if t != nil {
 			if a, ok := t.Underlying().(*types.Array); ok {
-				return fmt.Sprintf("((as const %s) %s)", s, d.zeroOf(a.Elem()))
+				return d.constArray(d.sortOf(a.Elem()), d.zeroOf(a.Elem()))
 			}
 		}
 	}
 	panic(unsupported("zero of sort " + s))
+}
+
+// constArray returns an array all of whose cells hold zero (a named constant with a defining axiom,
+// because cvc5 accepts (as const ...) only with value arguments).
+func (d *Decls) constArray(elemSort, zero string) string {
+	if zero == "0" || zero == "false" || zero == "0.0" {
+		return fmt.Sprintf("((as const %s) %s)", arrSort(elemSort), zero)
+	}
+	name := "zeroarr_" + sanitize(elemSort)
+	if _, ok := d.constSeen[name]; !ok {
+		c := d.declareConst(name, arrSort(elemSort))
+		d.axioms = append(d.axioms, fmt.Sprintf("(assert (forall ((i Int)) (! (= (select %s i) %s) :pattern ((select %s i)))))", c, zero, c))
+	}
+	return sym(name)
 }
 
 // strLit returns the Str constant for a Go string literal.
@@ -551,6 +566,21 @@ func (d *Decls) query(assumptions []string, goal string, wantModel bool) string 
 // definedConst returns the constant an axiom of the form (assert (= c term)) or (assert (= (f c ...) ...)) defines.
 func definedConst(ax string) string {
 	const p = "(assert (= "
+	if strings.HasPrefix(ax, "(assert (forall ") {
+		if i := strings.Index(ax, "(= (|spec_"); i >= 0 {
+			r := ax[i+4:]
+			if j := strings.Index(r[1:], "|"); j >= 0 {
+				return r[:j+2]
+			}
+		}
+		if i := strings.Index(ax, "(= (select |zeroarr_"); i >= 0 {
+			r := ax[i+11:]
+			if j := strings.Index(r[1:], "|"); j >= 0 {
+				return r[:j+2]
+			}
+		}
+		return ""
+	}
 	if !strings.HasPrefix(ax, p) {
 		return ""
 	}
@@ -558,6 +588,14 @@ func definedConst(ax string) string {
 	if strings.HasPrefix(rest, "|") {
 		if j := strings.Index(rest[1:], "|"); j >= 0 {
 			return rest[:j+2]
+		}
+	}
+	if strings.HasPrefix(ax, "(assert (forall ") {
+		if i := strings.Index(ax, "(= (|spec_"); i >= 0 {
+			r := ax[i+4:]
+			if j := strings.Index(r[1:], "|"); j >= 0 {
+				return r[:j+2]
+			}
 		}
 	}
 	if strings.HasPrefix(rest, "(slen |") || strings.HasPrefix(rest, "(sat |") {
